@@ -506,7 +506,7 @@ func (e *uenv) legacyLayout(art string, cur map[string][]byte, vr variant) map[s
 			}
 			if cnt > 0 {
 				if old, ok := cur["\x01"+string(committee)]; ok {
-					cnt += world.Int64(stackitem.NewByteArray(old))
+					cnt += world.LEInt(old).Int64()
 				}
 				b, _ := stackitem.Make(cnt).TryBytes()
 				out["\x01"+string(committee)] = b
